@@ -9,6 +9,8 @@ def getMaintProcDesc(procedure):
         return json.dumps(['Fixture procedure one.'])
     if procedure == 'FIXBOOM':
         raise ValueError('fixture callout parser refuses')
+    if procedure.startswith('FIXB'):          # FIXB000 .. FIXB023: every kind of failure text
+        raise verif_fixture.failure('xcallouts', procedure)
     if procedure == 'FIXEMPT':
         raise ValueError
     if procedure == 'FIXIMPT':
